@@ -271,6 +271,8 @@ pub struct Ctx {
     pub extra: BTreeMap<String, Value>,
     pub inconclusive: Option<String>,
     pub all_exhaustive: bool,
+    /// classes that must have been produced at least once (generator health); checked in finish()
+    pub required_classes: Vec<String>,
 }
 
 impl Ctx {
@@ -293,6 +295,7 @@ impl Ctx {
             extra: BTreeMap::new(),
             inconclusive: None,
             all_exhaustive: false,
+            required_classes: vec![],
         }
     }
 
@@ -303,6 +306,10 @@ impl Ctx {
     /// true if the signature is listed as `known:` for this property (cases matching it are excluded).
     pub fn is_known(&self, signature: &str) -> bool {
         self.known.iter().any(|k| k.signature == signature)
+    }
+
+    pub fn require_class(&mut self, name: &str) {
+        self.required_classes.push(name.to_string());
     }
 
     pub fn assume(&mut self, s: &str) {
@@ -519,6 +526,14 @@ impl Ctx {
             if f.broken {
                 eprintln!("INCONCLUSIVE property={} : oracle self-check failed in sub-check {}: {}\ncase: {}", self.property, f.sub, f.message, f.case);
                 return 2;
+            }
+        }
+        if self.failure.is_none() && scale() >= 1.0 {
+            for c in &self.required_classes {
+                if self.stats.classes.get(c).copied().unwrap_or(0) == 0 {
+                    eprintln!("INCONCLUSIVE property={} : generator health check failed: class {:?} was never produced", self.property, c);
+                    return 2;
+                }
             }
         }
         let mut replay_path = None;
